@@ -10,14 +10,44 @@ LEVEL = "proof"
 LEAN_IMPORTS = ["WM.Props.C10", "WM.Props.C10Formats"]
 THEOREMS = [
     "WM.C10.delta_roundtrip", "WM.C10.ids_lawful", "WM.C10.blocks_roundtrip", "WM.C10.block_info",
-    "WM.C10.block_info_fields", "WM.C10.aggregates_meaning", "WM.C10.terminfo", "WM.C10.inline_roundtrip",
+    "WM.C10.block_info_fields", "WM.C10.aggregates_meaning", "WM.C10.terminfo", "WM.C10.terminfo_through_bytes",
+    "WM.C10.inline_roundtrip", "WM.C10.inline_read",
     "WM.C10.leaf_refines_read", "WM.C10.leaf_refines_next", "WM.C10.leaf_refines_skip_to",
     "WM.C10.leaf_refines_skip_to_quality", "WM.C10.leaf_refines", "WM.C10.ids_orders",
     "WM.C10.word_values_terms", "WM.C10.values_existence", "WM.C10.values_frequency", "WM.C10.values_positions",
     "WM.C10.values_characters", "WM.C10.values_positionBoosts", "WM.C10.values_characterBoosts",
-    "WM.C10.values_all", "WM.C10.vector_items", "WM.C10.vector_transpose",
+    "WM.C10.values_all", "WM.C10.word_values_shape", "WM.C10.vector_items",
+    "WM.C10.doc_post_spec", "WM.C10.term_postings_spec", "WM.C10.vector_transpose_model", "WM.C10.vector_transpose",
+    "WM.C10.values_ok", "WM.C10.postings_end_to_end",
 ]
-PARTIAL = {}
+# theorem -> what is missing for the full statement of the property
+PARTIAL = {
+    "WM.C10.vector_transpose_model":
+        "the stored vector and the posting lists agree on term, frequency and value, but not on the weight: "
+        "add_document multiplies the posting weight by the document boost and writes the vector items without it, "
+        "so the statement relates them by `weight = vector weight * document boost` (equal only for _boost = 1). "
+        "This is whoosh's behaviour, mirrored by specVector / specPostings; it is not reported as a defect.",
+    "WM.C10.vector_transpose":
+        "spec-level corollary only (both sides are Layer S); the model statement is vector_transpose_model",
+    "WM.C10.term_postings_spec":
+        "the model of the indexing path is add_document's posts -> pool sorted by (term, docnum) -> the run of one term "
+        "-> add_postings, for ONE field of ONE segment whose documents were added with increasing docnums. The pool's "
+        "on-disk runs / merge of runs (PostingPool spilling), several fields in one pool, the merge of segments "
+        "(add_postings_to_pool with a docmap) and multi-segment readers are covered by the end-to-end stream only",
+    "WM.C10.postings_end_to_end":
+        "composes formats -> pool -> block writer -> block reader for the W3 codec; the bytes after the pack_uint "
+        "header (pickle / struct of positions, chars, boosts) are an identity parameter `tail`, the length of a "
+        "document (`lenOf`, read from the lengths column: C08) is a parameter, and inlined lists are the separate "
+        "theorem inline_read. MemoryCodec and PlainTextCodec have no Lean model: they are checked only by the "
+        "end-to-end stream against Layer S",
+    "WM.C10.terminfo_through_bytes":
+        "document-number postings whose ids are not the 0xffffffff NO_ID sentinel (a docnum that W3 cannot tell "
+        "from `no id`; never reached by an index below 2^32-1 documents); the byte layout of to_bytes itself is "
+        "not modelled, only the lossy conversions it applies (float32, length byte, sentinel)",
+    "WM.C10.inline_read":
+        "for a value-less format (fixedsize 0) the inlined reader shows b'' where the block reader shows None; the "
+        "theorem states exactly this difference instead of hiding it",
+}
 RULE = ("(1) codec: posting lists with lengths around multiples of blocklimit (1..9, 128) x id kind (docnum/term) "
         "x fixed value size (none/0/4) x weight minification mode x length mode x inlinelimit 0/1/3, each with a "
         "cursor program (next/skip_to/skip_to_quality/copy/reads, also past the end) and a malformed sub-stream "
@@ -32,6 +62,10 @@ ASSUMPTIONS = [
     "pickle, zlib and struct round-trip (identity parameters of the model)",
     "weights in the differential streams are float32-representable dyadics, so array('f') is the identity; "
     "float32 rounding of arbitrary weights is checked against struct('f') on the real code only",
+    "byte offsets inside the posting file are abstracted to block indices; the terms index (term -> W3TermInfo bytes) "
+    "is exercised end to end only",
+    "analysis is outside the model: the formats receive a token list (text, pos, startchar, endchar, boost)",
+    "MemoryCodec and PlainTextCodec are covered by the public-API stream only (no Lean model of them)",
 ]
 TRUSTED = []
 MANIFEST = {
@@ -75,7 +109,11 @@ def _real_codec(case):
         r2 = G.real_run(*(args + (_cursor_ops(c["ops"]),)))
     except Exception as e:  # noqa
         r2 = "harness-exc %r" % (e,)
-    return w, r, r2
+    try:
+        rt = G.real_tib(*args) if c["kind"] == "doc" else "pong"
+    except Exception as e:  # noqa
+        rt = "harness-exc %r" % (e,)
+    return w, r, r2, rt
 
 
 def _cursor_ops(ops):
@@ -166,11 +204,13 @@ def stream_codec(ctx, cases):
         lines.append("c10 write %s %s" % (_cfg_text(c), pl))
         lines.append("c10 run %s %s %s" % (_cfg_text(c), pl, G.lst([G.op_sexp(c["kind"], o) for o in c["ops"]])))
         lines.append("c10 spec %s %d %s %s" % (c["kind"], c["bl"], G.opt(str, c["fs"]), pl))
+        # W3TermInfo.to_bytes/from_bytes (term keys only: vector term infos are never serialised)
+        lines.append(("c10 tib %s %s" % (_cfg_text(c).split(" ", 1)[1], pl)) if c["kind"] == "doc" else "ping")
     model = ctx.driver.ask(lines)
     real = ctx.pmap(_real_codec, cases, chunksize=8)
     for k, c in enumerate(cases):
-        mw, mr, ms = model[3 * k], model[3 * k + 1], model[3 * k + 2]
-        rw, rr, rr2 = real[k]
+        mw, mr, ms, mt = model[4 * k], model[4 * k + 1], model[4 * k + 2], model[4 * k + 3]
+        rw, rr, rr2, rt = real[k]
         n = len(c["postings"])
         inlined = " none)" not in mw[-8:] if mw.startswith("ok") else False
         nontrivial = mw.startswith("ok") and (n > c["bl"] or inlined)
@@ -197,6 +237,8 @@ def stream_codec(ctx, cases):
             ctx.divergence("W3PostingsWriter", _case_json(c), mw[:2000], rw[:2000])
         if mr != rr:
             ctx.divergence("W3LeafMatcher", _case_json(c), mr[:2000], rr[:2000])
+        if c["kind"] == "doc" and mt != rt and not (mw != rw):
+            ctx.divergence("W3TermInfo.to_bytes/from_bytes", _case_json(c), mt[:600], rt[:600])
         # end-to-end at codec level: what the real reader shows == the Lean *spec* of the list
         if not c["malformed"] and mw.startswith("ok"):
             _check_spec(ctx, c, ms, rw)
@@ -356,6 +398,11 @@ def stream_index(ctx, n, cases=None):
         cases = [G.gen_index_case(rng, ctx.tier) for _ in range(n)]
     speclines = ctx.driver.ask([G.index_case_line(c) for c in cases])
     results = ctx.pmap(G.run_index_case, list(zip(cases, speclines)), chunksize=4)
+    for c, sl in zip(cases, speclines):
+        if not sl.rstrip().endswith("(model 1)"):
+            # the executable model of add_document -> pool -> add_postings / vector items disagrees with
+            # Layer S on this input (theorems term_postings_spec / vector_items, evaluated)
+            ctx.divergence("termPostings/vectorItems-vs-spec", G.index_case_json(c), "model = spec", sl[-200:])
     for c, (viol, stats) in zip(cases, results):
         multi = stats.get("postings-multiblock", 0) > 0
         ctx.case(("index", repr(sorted(G.index_case_json(c).items()))), nontrivial=multi or stats.get("vectors", 0) > 0)
